@@ -60,6 +60,7 @@ def run(ck, progs):
         rules_array.check(ck, P, "C11.7")
         rules_array.check_moves(ck, P, "C11.7")
         rules_msg.check_typestate(ck, P, "C11.1", "C11.1")
+        rules_msg.check_foreign_entries_untouched(ck, P, "C11.1")
         rules_num.check_shift_widths(ck, P, "C11.2")
         rules_rollback.check_account(Renamed(ck, {}), P, "C11.3", "C11.3")
         _pl_size(ck, P, cfg)
